@@ -737,7 +737,26 @@ func (e *effects) externalWrites(g *ssa.Function, c ssa.CallInstruction, oc *ori
 	}
 	switch {
 	case name == "sort.Sort" || name == "sort.Stable" || name == "sort.Slice" || name == "sort.SliceStable":
-		writesRecv()
+		// sorting permutes the elements of the slice: for a struct sort type built in place (slice plus comparison
+		// function) that is the slice it was given, not the function value next to it
+		handled := false
+		if len(args) > 0 {
+			if mi, ok := args[0].(*ssa.MakeInterface); ok {
+				if al := structSortLiteral(mi.X); al != nil {
+					for _, st := range storesInto(al) {
+						if fa, isFA := st.Addr.(*ssa.FieldAddr); isFA && fa.X == ssa.Value(al) {
+							if _, isSlice := st.Val.Type().Underlying().(*types.Slice); isSlice {
+								out.add(oc.origin(st.Val))
+								handled = true
+							}
+						}
+					}
+				}
+			}
+		}
+		if !handled {
+			writesRecv()
+		}
 	case strings.HasPrefix(name, "(*strings.Builder).") || strings.HasPrefix(name, "(*bytes.Buffer).") || strings.HasPrefix(name, "(*encoding/xml.Encoder)."):
 		if !strings.HasSuffix(name, ".String") && !strings.HasSuffix(name, ".Len") && !strings.HasSuffix(name, ".Bytes") {
 			writesRecv()
